@@ -1035,6 +1035,10 @@ http_url_decode(uint8_t *url, size_t url_size, uint8_t *buf, size_t buf_size) {
 	for (; url < url_max && buf_pos < buf_max; url ++, buf_pos ++) {
 		switch (url[0]) {
 		case '%':
+			if (3 > (size_t)(url_max - url)) { /* Truncated escape: keep as is. */
+				(*buf_pos) = url[0];
+				continue;
+			}
 			(*buf_pos) = (uint8_t)ustrh2u32((url + 1), 2);
 			url += 2;
 			continue;
